@@ -456,6 +456,43 @@ def binary_worker(job):
     return st
 
 
+def memcheck_worker(job):
+    """Pattern rows replayed under valgrind memcheck (Oniguruma compiling and matching every generated pattern in every
+    syntax, plus deliberately malformed ones). A crash is a violation; reports without a crash are advisory."""
+    k, nast, seed = job
+    st = Stats()
+    rng = common.rng_for(seed, "C17m", k)
+    base = common.mkscratch("C17m%d" % k)
+    try:
+        lines = []
+        for i in range(nast):
+            ast = gen(rng)
+            paths = paths_for(rng, ast, 9)
+            for syntax in SYNTAXES:
+                if not usable(ast, syntax):
+                    continue
+                pat = render(ast, syntax)
+                if rng.random() < 0.15:
+                    # damage the pattern: the compiler's error paths are exercised too
+                    j = rng.randrange(len(pat) + 1)
+                    pat = pat[:j] + rng.choice(["(", ")", "[", "\\", "{", "\\(", "\\{", "*", "[[:", "|"]) + pat[j:]
+                args = ["-regextype", syntax, rng.choice(["-regex", "-iregex"]), pat]
+                lines.append("\t".join(["r%d_%s" % (i, syntax), "P", "1", str(len(args))] + [common.hx(a) for a in args] + [common.hx(x) for x in paths]))
+        res, rep = common.run_vh_memcheck("match", lines, base, cwd=base)
+        st.inc("memcheck_pattern_rows", rep["answered"])
+        st.inc("memcheck_error_reports", rep["errors"])
+        if rep["timed_out"]:
+            st.notes.append("memcheck run timed out (inconclusive for this shard)")
+        elif rep["crashed"]:
+            st.violate("memcheck-crash", None, {"rc": rep["rc"], "answered": rep["answered"], "cases": rep["cases"], "log": rep["first"][:600]},
+                       {"cases": lines[rep["answered"]:rep["answered"] + 3]})
+        if rep["errors"]:
+            st.notes.append("memcheck reported %d errors (advisory): %r" % (rep["errors"], rep["kinds"]))
+    finally:
+        common.force_rmtree(base)
+    return st
+
+
 def self_check():
     # renderings of a fixed AST must read as expected
     ast = ("cat", [("lit", "a"), ("alt", [("lit", "b"), ("cat", [("lit", "b"), ("lit", "+")])]), ("star", ("set", False, [("r", "a", "c")]))])
@@ -481,6 +518,13 @@ def run(ctx):
     ctx.pmap(worker, [(k, n // nw, ctx.seed) for k in range(nw)])
     nb = ctx.scale(960, 16000)
     ctx.pmap(binary_worker, [(k, nb // nw, ctx.seed) for k in range(nw)])
+    if common.memcheck_available():
+        nm = ctx.scale(160, 9600)
+        ctx.pmap(memcheck_worker, [(k, max(1, nm // nw), ctx.seed) for k in range(nw)])
+        ctx.require("memcheck_pattern_rows", 50)
+        ctx.assumptions.append("valgrind memcheck on the release harness: a crash is a violation, reports without a crash are advisory")
+    else:
+        ctx.stats.notes.append("valgrind not available: memcheck replay skipped")
     for key in ("binary_members", "binary_non_members", "members", "non_members", "feature:alt", "feature:rep", "feature:set", "reversed_alternation_twins", "test:-iregex",
                 "shape:in-parens", "shape:two-types", "shape:type-in-parens", "shape:overridden", "syntax:grep", "syntax:sed"):
         ctx.require(key, 5)
